@@ -284,13 +284,7 @@ func ruleSearch(c *Ctx, rule string, minLoops int) {
 		}
 		// the loop visits every element: index is the range induction variable starting at 0/-1 with step 1 (range over slice) — accept only range loops
 		hdr := sl.loop.Header
-		isRange := false
-		for _, ins := range hdr.Instrs {
-			if ph, ok := ins.(*ssa.Phi); ok && strings.HasPrefix(ph.Comment, "rangeindex") {
-				isRange = true
-			}
-		}
-		c.Check(rule, key+":range-over-whole-snapshot", blockPos(p, hdr), isRange, "the search loop is not a range over the whole snapshot")
+		c.Check(rule, key+":traverses-whole-snapshot", blockPos(p, hdr), fullTraversal(sl.loop), "the search loop is not a full forward traversal (range, or index from 0 by 1 up to len) of the snapshot")
 		// the header length given to Unpack is computed from the same key that decrypts
 		keyArg := sl.unpack.Call.Args[2]
 		// when the ciphertext handed to Unpack is a computed prefix (TCP), it must be computed in this very iteration
@@ -820,4 +814,53 @@ func ruleSaltSlice(c *Ctx, rule string) {
 		}
 	}
 	c.Floor(rule, "salt results returned by the key finder", n, 1)
+}
+
+// fullTraversal: the loop header has an induction variable that starts at 0 (or -1 for a lowered range) and is incremented by
+// 1 on every back edge, and the header's continue condition is i < len(x) (or i+1 < len(x) for range).
+func fullTraversal(l *eng.Loop) bool {
+	for _, ins := range l.Header.Instrs {
+		ph, ok := ins.(*ssa.Phi)
+		if !ok {
+			break
+		}
+		init, step := false, true
+		for i, e := range ph.Edges {
+			pred := l.Header.Preds[i]
+			if l.Body[pred] {
+				bo, ok := e.(*ssa.BinOp)
+				if !ok || bo.Op != token.ADD || bo.X != ssa.Value(ph) {
+					step = false
+					continue
+				}
+				if k, ok := eng.ConstInt(bo.Y); !ok || k != 1 {
+					step = false
+				}
+			} else {
+				if k, ok := eng.ConstInt(e); ok && (k == 0 || k == -1) {
+					init = true
+				}
+			}
+		}
+		if !init || !step {
+			continue
+		}
+		// header condition compares the induction variable (or +1) with len(...)
+		if iff, ok := l.Header.Instrs[len(l.Header.Instrs)-1].(*ssa.If); ok {
+			if bo, ok := iff.Cond.(*ssa.BinOp); ok && bo.Op == token.LSS {
+				lhs := bo.X
+				if add, ok := lhs.(*ssa.BinOp); ok && add.Op == token.ADD {
+					lhs = add.X
+				}
+				if lhs == ssa.Value(ph) {
+					if lc, ok := bo.Y.(*ssa.Call); ok {
+						if bi, ok := lc.Call.Value.(*ssa.Builtin); ok && bi.Name() == "len" {
+							return true
+						}
+					}
+				}
+			}
+		}
+	}
+	return false
 }
